@@ -3,8 +3,8 @@
 //   C15_probe search <seed> <nsystems> <maxBodies>   evaluates the property's own predicates on the implementation alone
 // Random simbody trees over the 17 built-in mobilizer types (mb_common.h), forward/reversed, quaternion/Euler,
 // with three mass modes: 0 all bodies massive; 1 some non-terminal bodies massless; 2 every body massless (Weld only).
-// Per-body inputs are what the implementation reports: X_GB, V_GB, A_GB, body mass properties (unit inertia
-// re-expressed in Ground here with plain Mat33 arithmetic).
+// Per-body inputs are what the implementation reports, unprocessed: X_GB (R row-major, p), V_GB, A_GB, body mass properties in B
+// (mass, mass centre, unit inertia).
 #include "mb_common.h"
 #include <cmath>
 
@@ -61,12 +61,20 @@ static int corr(unsigned long long seed, int nsys, int maxb) {
             int p = mb.getParentMobilizedBody().getMobilizedBodyIndex();
             const Transform& X = mb.getBodyTransform(s); const Transform& XP = mb.getParentMobilizedBody().getBodyTransform(s);
             const MassProperties& mp = mb.getBodyMassProperties(s);
-            Mat33 R = X.R().asMat33(); Mat33 GG = R * mp.getUnitInertia().toMat33() * ~R; Vec3 pG = R * mp.getMassCenter();
+            Mat33 R = X.R().asMat33();
             std::printf("BODY %d %d %s %d", (int)b, p, MOBTYPES[cs.rs.types[b - 1]], (int)cs.rs.revs[b - 1]);
-            p3(X.p() - XP.p()); std::printf(" %a", mp.getMass()); p3(X.p()); p3(pG); psym(GG);
+            // raw body-frame data: the model re-expresses it in Ground itself (C15_Model.toG)
+            p3(X.p() - XP.p()); std::printf(" %a", mp.getMass()); p3(X.p()); p3(mp.getMassCenter()); psym(mp.getUnitInertia().toMat33());
+            for (int i = 0; i < 3; ++i) for (int j = 0; j < 3; ++j) std::printf(" %a", R(i, j));
             psv(mb.getBodyVelocity(s));
             if (cs.haveAcc) psv(mb.getBodyAcceleration(s)); else psv(SpatialVec(Vec3(0), Vec3(0)));
             std::printf("\n");
+        }
+        for (MobilizedBodyIndex b(1); b < NB; ++b) {   // the two per-body code paths that shift / centralise in B and re-express afterwards
+            const MobilizedBody& mb = m.getMobilizedBody(b);
+            MassProperties t = mb.getBodyMassProperties(s).calcTransformedMassProps(~mb.getBodyTransform(s));
+            std::printf("OUT BTMP %d %a", (int)b, t.getMass()); p3(t.getMassCenter()); psym(t.getUnitInertia().toMat33()); std::printf("\n");
+            std::printf("OUT BMOM %d", (int)b); psv(mb.calcBodyMomentumAboutBodyMassCenterInGround(s)); std::printf("\n");
         }
         std::printf("OUT MASS %a\n", m.calcSystemMass(s));
         std::printf("OUT COM"); p3(m.calcSystemMassCenterLocationInGround(s)); std::printf("\n");
@@ -151,7 +159,28 @@ static int search(unsigned long long seed, int nsys, int maxb) {
     return 0;
 }
 
+// ---------------------------------------------------------------- witness: chain of two massless welded frames on a massive body
+// Ground -Pin-> B1 (mass 2) -Weld-> B2 (massless) -Weld-> B3 (massless).  The subtree of B1 has mass 2 and a perfectly
+// well-defined spatial inertia (that of B1), but SpatialInertia::operator+= divides by the combined mass 0+0 when B3's
+// composite is added to B2's, and the NaN then propagates to B1.
+static int witness() {
+    MultibodySystem sys; SimbodyMatterSubsystem matter(sys); GeneralForceSubsystem forces(sys);
+    Body::Rigid massive(MassProperties(2, Vec3(0.1, 0.2, 0.3), Inertia(1, 1, 1))); Body::Rigid frame(MassProperties(0, Vec3(0), Inertia(0)));
+    MobilizedBody::Pin b1(matter.Ground(), Transform(), massive, Transform());
+    MobilizedBody::Weld b2(b1, Transform(Vec3(1, 0, 0)), frame, Transform());
+    MobilizedBody::Weld b3(b2, Transform(Vec3(0, 1, 0)), frame, Transform());
+    State s = sys.realizeTopology(); sys.realize(s, Stage::Position);
+    Array_<SpatialInertia, MobilizedBodyIndex> R; matter.calcCompositeBodyInertias(s, R);
+    const SpatialInertia& R1 = R[b1.getMobilizedBodyIndex()]; const SpatialInertia& Mk = b1.getBodySpatialInertiaInGround(s);
+    bool nan = false; for (int i = 0; i < 3; ++i) if (R1.getMassCenter()[i] != R1.getMassCenter()[i]) nan = true;
+    Mat33 G = R1.getUnitInertia().toMat33(); for (int i = 0; i < 3; ++i) for (int j = 0; j < 3; ++j) if (G(i, j) != G(i, j)) nan = true;
+    std::printf("WITNESS cbi-nan-massless-chain nan=%d compositeMass=%g compositeCom=%g,%g,%g expectedCom=%g,%g,%g\n", (int)nan, R1.getMass(),
+                R1.getMassCenter()[0], R1.getMassCenter()[1], R1.getMassCenter()[2], Mk.getMassCenter()[0], Mk.getMassCenter()[1], Mk.getMassCenter()[2]);
+    return 0;
+}
+
 int main(int argc, char** argv) {
+    if (argc >= 2 && std::string(argv[1]) == "witness") return witness();
     if (argc < 5) { std::fprintf(stderr, "usage: C15_probe corr|search seed nsys maxb\n"); return 2; }
     unsigned long long seed = std::strtoull(argv[2], 0, 10); int nsys = std::atoi(argv[3]); int maxb = std::atoi(argv[4]);
     return std::string(argv[1]) == "search" ? search(seed, nsys, maxb) : corr(seed, nsys, maxb);
